@@ -81,3 +81,54 @@ package literal
 //@   loop 1: invariant -1 <= rangeindex && rangeindex < rangelen && rangelen == len(s.literals) && s != nil && fresh(cloned) && allocated(cloned) && len(cloned) == len(s.literals)
 //@   loop 1: invariant forall i :: 0 <= i && i <= rangeindex ==> fresh(cloned[i].Bytes) && allocated(cloned[i].Bytes) && cloned[i].Complete == s.literals[i].Complete && sameBytes(cloned[i].Bytes, s.literals[i].Bytes)
 //@   loop 1: decreases rangelen - rangeindex
+
+// ---- C17: limits of the extractor: a shortened literal is not complete, a shortened list is partial ----
+// rsbLen(runes): byte length of the UTF-8 text of runes ([]byte(string(runes)), trusted)
+//@ uninterpreted spec func rsbLen(runes []rune) int
+//@ trusted func runeSliceToBytes
+//@   ensures len(result) == rsbLen(runes) && off(result) == 0 && (len(result) == 0 || fresh(result))
+//@ trusted func (*Extractor).expandCaseFoldLiteral
+//@   ensures result != nil
+//@ trusted func (*Extractor).extractPrefixesConcat
+//@   ensures result != nil
+//@ trusted func (*Extractor).expandCharClass
+//@   ensures result != nil
+
+//@ func (*Seq).Len
+//@   props C17
+//@   ensures result == ite(s == nil, 0, len(s.literals))
+//@ func (*Seq).Get
+//@   props C17
+//@   requires s != nil && 0 <= i && i < len(s.literals)
+//@   ensures sameslice(result.Bytes, s.literals[i].Bytes) && result.Complete == s.literals[i].Complete
+
+//@ func (*Extractor).extractPrefixes
+//@   props C17
+//@   opt elems_nonnil=regexp/syntax.Regexp
+//@   requires e != nil && re != nil && e.config.MaxLiterals >= 0 && e.config.MaxLiteralLen >= 0 && e.config.CrossProductLimit <= 999999 && 0 <= depth && depth <= 1000
+//@   ensures result != nil
+//@   ensures re.Op == 3 && (re.Flags & 1) == 0 && depth <= 100 ==> len(result.literals) == 1 && !result.partialCoverage && len(result.literals[0].Bytes) <= rsbLen(re.Rune) && (result.literals[0].Complete ==> len(result.literals[0].Bytes) == rsbLen(re.Rune))
+
+//@ trusted func (*Seq).Dedup
+//@   requires s != nil
+//@   modifies s.literals
+//@   ensures len(s.literals) <= old(len(s.literals)) && (sameslice(s.literals, old(s.literals)) || fresh(s.literals))
+//@ func (*Extractor).markAllInexact
+//@   props C17
+//@   requires s != nil && len(s.literals) <= 1000000
+//@   modifies s.literals[*].Complete
+//@   ensures forall i :: 0 <= i && i < len(s.literals) ==> !s.literals[i].Complete
+//@   loop 1: invariant -1 <= rangeindex && rangeindex < rangelen && rangelen == len(s.literals) && (forall i :: 0 <= i && i <= rangeindex ==> !s.literals[i].Complete)
+//@   loop 1: decreases rangelen - rangeindex
+
+// alternation: literals may be dropped from the list (after trimming and dedup) only if the result says so
+//@ func (*Extractor).extractPrefixesAlternate
+//@   props C17
+//@   opt elems_nonnil=regexp/syntax.Regexp
+//@   requires e != nil && re != nil && e.config.MaxLiterals >= 0 && e.config.MaxLiteralLen >= 0 && e.config.CrossProductLimit <= 999999 && 0 <= depth && depth <= 999
+//@   ghost kept = 0
+//@   after call Dedup: ghost kept = len(result.literals)
+//@   ensures result != nil
+//@   ensures len(result.literals) < kept ==> result.partialCoverage
+//@   loop 1: invariant -1 <= rangeindex && rangeindex < rangelen && rangelen == len(re.Sub) && 0 < crossLimit && crossLimit <= 999999 && len(allLits) <= crossLimit && !overflowed && (allLits == nil || fresh(allLits))
+//@   loop 2: invariant 0 <= i && 0 < crossLimit && crossLimit <= 999999 && len(allLits) <= crossLimit && !overflowed && (allLits == nil || fresh(allLits)) && seq != nil
